@@ -25,6 +25,17 @@ Definition vhdr_tv (trust : N) (t u : hdr) : tvres :=
   else if negb (trust =? 0) && (trust <? sub64 (h_height u) (h_height t)) then TVPlain 2
   else TVOk.
 
+(** Gallina twin of the drivers' panicPolicy: LinkPolicy, except that the type-level Verify
+    PANICS on marked headers (the mark is in the timestamp): T mod 10 = 7: whatever the trusted
+    header; T mod 10 = 3: only when the marked header is adjacent to the trusted one *)
+Definition vhdr_tvp (trust : N) (t u : hdr) : tvres_p :=
+  if (h_time u mod 10 =? 7)%Z then TVPanics
+  else if (h_time u mod 10 =? 3)%Z && (h_height u =? wrap64 (h_height t + 1)) then TVPanics
+  else TVRes (vhdr_tv trust t u).
+
+(** ... with its panics recovered: the verifier the theorems are instantiated with *)
+Definition vhdr_rtv (trust : N) : hdr -> hdr -> tvres := recovered (vhdr_tvp trust).
+
 Record case05 := Case05 {
   k_drift : Z; k_trust : N; k_maxcap : N; k_per : N;
   k_from : hdr; k_to : N; k_peers : list N;
@@ -36,7 +47,7 @@ Definition log_events (l : list logev) : list event :=
 
 (** replay: every logged request must be one the model has queued, sent to a peer the
     model has idle, while the call has not returned *)
-Fixpoint replay (drift : Z) (tv : hdr -> hdr -> tvres) (maxcap : N) (from : hdr)
+Fixpoint replay (drift : Z) (tv : hdr -> hdr -> tvres_p) (maxcap : N) (from : hdr)
          (s : sess) (l : list logev) : sess * bool :=
   match l with
   | [] => (s, true)
@@ -47,8 +58,8 @@ Fixpoint replay (drift : Z) (tv : hdr -> hdr -> tvres) (maxcap : N) (from : hdr)
     | None =>
       if existsb (N.eqb (l_peer e)) (s_idle s) && existsb (req_eqb r) (s_queue s) then
         replay drift tv maxcap from
-               (step drift tv maxcap from
-                     (step drift tv maxcap from s (EDispatch (l_peer e) r))
+               (step_p drift tv maxcap from
+                     (step_p drift tv maxcap from s (EDispatch (l_peer e) r))
                      (ERespond (l_peer e) (l_now e) (l_frames e))) rest
       else (s, false)
     end
@@ -92,7 +103,7 @@ Definition obs_eqb (a b : obs) : bool :=
   end.
 
 Definition model05 (c : case05) : option obs :=
-  let tv := vhdr_tv (k_trust c) in
+  let tv := vhdr_tvp (k_trust c) in
   let '(s, consistent) :=
     replay (k_drift c) tv (k_maxcap c) (k_from c)
            (get_range (k_maxcap c) (k_per c) (k_from c) (k_to c) (k_peers c)) (k_log c) in
@@ -124,7 +135,7 @@ Definition degenerate (c : case05) : bool := k_to c <=? h_height (k_from c) + 1.
 
 Definition shape_ok (c : case05) (res : list hdr) : bool :=
   let hf := h_height (k_from c) in
-  let tv := vhdr_tv (k_trust c) in
+  let tv := vhdr_rtv (k_trust c) in
   match res with [] => false | _ => true end
   && list_eqb N.eqb (map h_height res) (seqN (hf + 1) (length res))
   && (hf + 1 + N.of_nat (length res) <=? k_to c)
@@ -147,7 +158,21 @@ Definition ok05 (c : case05) : bool :=
 Definition wf05 (c : case05) : bool :=
   negb (h_nil (k_from c)) && (h_height (k_from c) <? two64) && (k_to c <? two64) && (1 <=? k_per c).
 
-Definition chk05 (c : case05) : bool * bool * N := (wf05 c && agree05 c, ok05 c, 0).
+(** known-finding class 1 (narrow): the call panicked, the request was not beyond the slice
+    limit, and some answer carried a header on which the type-level Verify panics ONLY when
+    it is verified against the header directly below it (and no header on which it panics
+    unconditionally): the panic of header.Verify inside verifyChunkBoundaries, which runs
+    outside any recover *)
+Definition marked (k : Z) (h : hdr) : bool := (h_time h mod 10 =? k)%Z.
+Definition class05 (c : case05) : N :=
+  match k_obs c with
+  | OPanic =>
+    if negb (beyond_slices c) && existsb (marked 3) (sent_log (k_log c))
+       && negb (existsb (marked 7) (sent_log (k_log c))) then 1 else 0
+  | _ => 0
+  end.
+
+Definition chk05 (c : case05) : bool * bool * N := (wf05 c && agree05 c, ok05 c, class05 c).
 
 (** ** the oracle accepts whatever the model produces *)
 
@@ -163,13 +188,13 @@ Lemma list_eqb_refl {A} (eqb : A -> A -> bool) :
 Proof. intros He. induction l as [|a l IH]; cbn; [reflexivity | rewrite He, IH; reflexivity]. Qed.
 
 Lemma replay_run drift tv maxcap from l : forall s s',
-  replay drift tv maxcap from s l = (s', true) -> s' = run drift tv maxcap from s (log_events l).
+  replay drift tv maxcap from s l = (s', true) -> s' = run_p drift tv maxcap from s (log_events l).
 Proof.
   induction l as [|e l IH]; intros s s'; cbn [replay log_events flat_map].
   - intros [= <-]. reflexivity.
   - destruct (s_res s); [discriminate|].
     destruct (_ && _); [|discriminate].
-    intros H. apply IH in H. cbn [app run]. exact H.
+    intros H. apply IH in H. cbn [app run_p]. exact H.
 Qed.
 
 Lemma log_events_hdrs l : evs_hdrs (log_events l) = sent_log l.
@@ -199,9 +224,12 @@ Proof.
   intros [H Hl]. rewrite (HW _ _ H). cbn. apply IH, Hl.
 Qed.
 
-Theorem chk05_sound : forall c, wf05 c && agree05 c = true -> ok05 c = true.
+(** sound for every observation; an observed panic is accepted by the oracle only beyond the
+    slice limit whatever the model says, so for that observation the premise is the oracle's own test *)
+Theorem chk05_sound : forall c,
+  wf05 c && agree05 c = true -> (k_obs c = OPanic -> beyond_slices c = true) -> ok05 c = true.
 Proof.
-  intros c Hwa. apply andb_prop in Hwa as [Hwf Hagree].
+  intros c Hwa Hpanic. apply andb_prop in Hwa as [Hwf Hagree].
   unfold wf05 in Hwf.
   apply andb_prop in Hwf as [Hwf Hper]. apply andb_prop in Hwf as [Hwf Ht]. apply andb_prop in Hwf as [Hwf Hf].
   apply negb_true_iff in Hwf. apply N.ltb_lt in Hf, Ht. apply N.leb_le in Hper.
@@ -209,12 +237,15 @@ Proof.
   destruct (replay _ _ _ _ _ _) as [s consistent] eqn:Hrep.
   destruct consistent; [|discriminate].
   apply replay_run in Hrep.
-  set (tv := vhdr_tv (k_trust c)) in *.
+  set (tv := vhdr_rtv (k_trust c)) in *.
   destruct (model_obs (watchdog_hit (k_log c)) s) as [o|] eqn:Hmo; [|discriminate].
-  assert (Hout : s_res s = GetRangeByHeight (k_drift c) tv (k_maxcap c) (k_per c) (k_from c) (k_to c) (k_peers c)
-                                            (log_events (k_log c))).
-  { unfold GetRangeByHeight. rewrite Hrep. reflexivity. }
-  unfold ok05. destruct (k_obs c) as [res| | | |] eqn:Hobs; try reflexivity.
+  unfold ok05. destruct (k_obs c) as [res| | | |] eqn:Hobs; try reflexivity; [| |exact (Hpanic eq_refl)].
+  all: destruct (run_p_spec (k_drift c) (vhdr_tvp (k_trust c)) (k_maxcap c) (k_from c) (log_events (k_log c))
+                            (get_range (k_maxcap c) (k_per c) (k_from c) (k_to c) (k_peers c))) as [Erun|[Erun _]];
+    [rewrite Erun in Hrep; fold (vhdr_rtv (k_trust c)) in Hrep; fold tv in Hrep
+    | rewrite <- Hrep in Erun; unfold model_obs in Hmo; rewrite Erun in Hmo; injection Hmo as <-; discriminate].
+  all: assert (Hout : s_res s = GetRangeByHeight (k_drift c) tv (k_maxcap c) (k_per c) (k_from c) (k_to c) (k_peers c)
+                                            (log_events (k_log c))) by (unfold GetRangeByHeight; rewrite Hrep; reflexivity).
   - (* headers *)
     destruct o as [l| | | |]; try discriminate. cbn [obs_eqb] in Hagree.
     apply (list_eqb_eq hdr_eqb hdr_eqb_eq) in Hagree. subst l.
@@ -242,18 +273,6 @@ Proof.
     pose proof (degenerate_is_error (k_drift c) tv (k_maxcap c) (k_per c) (k_from c) (k_to c) (k_peers c)
                                     (log_events (k_log c)) Hf Hdeg) as Herr.
     rewrite <- Hout in Herr. unfold model_obs in Hmo. rewrite Herr in Hmo. injection Hmo as <-. discriminate.
-  - (* a panic: only for a range beyond the largest slice *)
-    destruct o; try discriminate.
-    unfold model_obs in Hmo. destruct (s_res s) as [[l|[]| |]|] eqn:Hres; try discriminate.
-    2:{ destruct (s_flight s); [destruct (s_queue s), (s_idle s)|]; destruct (watchdog_hit (k_log c)); discriminate. }
-    symmetry in Hout. unfold beyond_slices, degenerate.
-    destruct (N.leb_spec (k_to c) (h_height (k_from c) + 1)) as [Hdeg|Hnd].
-    + rewrite (degenerate_is_error _ _ _ _ _ _ _ _ Hf Hdeg) in Hout. discriminate.
-    + cbn [negb andb]. apply N.ltb_lt.
-      destruct (N.le_gt_cases (k_to c - (h_height (k_from c) + 1)) (k_maxcap c)) as [Hcap|Hcap]; [exfalso | exact Hcap].
-      destruct (no_response_crashes (k_drift c) tv (k_maxcap c) (k_per c) (k_from c) (k_to c) (k_peers c)
-                                    (log_events (k_log c)) Hwf Hf Ht Hper Hcap) as [Hp _].
-      exact (Hp Hout).
 Qed.
 
 (** * C18: honest servers *)
@@ -269,7 +288,7 @@ Inductive case18 :=
           (rel : N)              (* a peer without injected faults *)
 | One18 (want : option N)        (* the client's configured chain id *)
         (served : hdr)           (* the header in the server's store that was asked for *)
-        (fs : list frame)        (* what the server put on the wire *)
+        (answers : list (list frame))  (* what each trusted server put on the wire, in arrival order *)
         (got : option hdr).      (* what Head / Get / GetByHeight returned (None = error) *)
 
 (** the reliable peer's answers are never empty *)
@@ -297,7 +316,7 @@ Definition expected18 (c : case05) (chain : list hdr) : list hdr :=
 Definition agree18 (c : case18) : bool :=
   match c with
   | Range18 b chain avs rel =>
-    let tv := vhdr_tv (k_trust b) in
+    let tv := vhdr_rtv (k_trust b) in
     wf05 b && agree05 b
     && (h_height (k_from b) + 1 <? two64) && (N.of_nat (length chain) <? two64)
     && negb (degenerate b) && (k_to b - (h_height (k_from b) + 1) <=? k_maxcap b)
@@ -308,11 +327,17 @@ Definition agree18 (c : case18) : bool :=
                     (log_events (k_log b)) avs
     && reliable_b rel (k_log b)
     && chain_ok_b (k_drift b) tv (k_from b) chain (nows_log (k_log b))
-  | One18 want served fs got =>
-    (* the server put exactly the stored header on the wire, and the client's processing of it is the model's *)
-    match fs with [FHdr h] => hdr_eqb h served | _ => false end
+  | One18 want served answers got =>
+    (* every server answered honestly (the stored header unchanged, NOT_FOUND, or nothing), one of them
+       holds the header, and the client's processing of the answers in arrival order is the model's *)
+    forallb (fun fs => match fs with
+                       | [FHdr h] => hdr_eqb h served
+                       | [FNotFound] | [] => true
+                       | _ => false
+                       end) answers
+    && existsb (fun fs => match fs with [FHdr _] => true | _ => false end) answers
     && h_ok served && match want with Some w => w =? h_chain served | None => true end
-    && option_eqb hdr_eqb (request_one want fs) got
+    && option_eqb hdr_eqb (perform_request want answers) got
   end.
 
 (** the property: exactly the chain's headers from+1 .. to-1, ascending; the served header unchanged *)
@@ -359,11 +384,18 @@ Qed.
 
 Theorem chk18_sound : forall c, agree18 c = true -> ok18 c = true.
 Proof.
-  intros [b chain avs rel|want served fs got]; cbn [agree18 ok18].
+  intros [b chain avs rel|want served answers got]; cbn [agree18 ok18].
   2:{ (* one header *)
-    intros H. apply andb_prop in H as [H Hgot]. apply andb_prop in H as [H Hw]. apply andb_prop in H as [Hfs Hok].
-    destruct fs as [|[h| | | |] [|? ?]]; try discriminate. apply hdr_eqb_eq in Hfs. subst h.
-    rewrite request_one_identity in Hgot; [| exact Hok |].
+    intros H. apply andb_prop in H as [H Hgot]. apply andb_prop in H as [H Hw]. apply andb_prop in H as [H Hok].
+    apply andb_prop in H as [Hall Hex].
+    assert (Hhon : Forall (honest_one served) answers).
+    { apply Forall_forall. intros fs Hfs. rewrite forallb_forall in Hall. specialize (Hall fs Hfs).
+      destruct fs as [|[h| | | |] [|? ?]]; try discriminate; unfold honest_one; auto.
+      apply hdr_eqb_eq in Hall. subst h. auto. }
+    assert (Hin : In [FHdr served] answers).
+    { apply existsb_exists in Hex as (fs & Hfs & Hk). rewrite forallb_forall in Hall. specialize (Hall fs Hfs).
+      destruct fs as [|[h| | | |] [|? ?]]; try discriminate. apply hdr_eqb_eq in Hall. subst h. exact Hfs. }
+    rewrite (perform_request_honest want served answers Hok) in Hgot; [| |exact Hhon|exact Hin].
     - destruct got as [g|]; [|discriminate]. cbn in Hgot |- *. apply hdr_eqb_eq in Hgot. subst g. apply hdr_eqb_refl.
     - destruct want as [w|]; [|exact I]. apply N.eqb_eq in Hw. exact Hw. }
   intros H.
@@ -376,7 +408,7 @@ Proof.
   unfold wf05 in Hwf.
   apply andb_prop in Hwf as [Hwf Hper]. apply andb_prop in Hwf as [Hwf Ht]. apply andb_prop in Hwf as [Hwf Hf].
   apply negb_true_iff in Hwf. apply N.ltb_lt in Hf, Ht. apply N.leb_le in Hper.
-  set (tv := vhdr_tv (k_trust b)) in *. set (c := cn chain) in *. set (top := N.of_nat (length chain)) in *.
+  set (tv := vhdr_rtv (k_trust b)) in *. set (c := cn chain) in *. set (top := N.of_nat (length chain)) in *.
   set (evs := log_events (k_log b)) in *.
   (* the chain *)
   unfold chain_ok_b in Hchain. apply andb_prop in Hchain as [Hwfc Hver].
@@ -405,6 +437,16 @@ Proof.
   apply replay_run in Hrep. fold evs in Hrep.
   rewrite Hwd in Hagree.
   destruct (model_obs false s) as [o|] eqn:Hmo; [|discriminate].
+  destruct (run_p_spec (k_drift b) (vhdr_tvp (k_trust b)) (k_maxcap b) (k_from b) evs
+                       (get_range (k_maxcap b) (k_per b) (k_from b) (k_to b) (k_peers b))) as [Erun|[Erun1 Erun2]].
+  2:{ (* a panic in the boundary check: the recovered run would report a broken chain, which honest answers never cause *)
+    exfalso. fold (vhdr_rtv (k_trust b)) in Erun2. fold tv in Erun2.
+    apply (honest_no_chain_error (k_drift b) tv (k_maxcap b) (k_per b) (k_from b) (k_to b) (k_peers b) c top evs
+                                 Hwf Hf1 Ht Hper Hch Hhon); [|exact Erun2].
+    intros p0 now0 fs0 Hev. apply log_events_kinds in Hev as (e0 & He0 & [Hd0|Hr0]); [discriminate|].
+    injection Hr0 as -> -> ->. apply chain_verifies_b_sound. rewrite forallb_forall in Hver. apply Hver.
+    apply nodup_In. unfold nows_log. apply in_map, He0. }
+  rewrite Erun in Hrep. fold (vhdr_rtv (k_trust b)) in Hrep. fold tv in Hrep.
   assert (Hout : s_res s = GetRangeByHeight (k_drift b) tv (k_maxcap b) (k_per b) (k_from b) (k_to b) (k_peers b) evs).
   { unfold GetRangeByHeight. rewrite Hrep. reflexivity. }
   assert (Hnoctx : ~ In ECtxDone evs /\ ~ In EStop evs).
